@@ -1585,6 +1585,9 @@ def np_argmin(engine, run, a, k):
         return SFlatIndex(m, "argmin")
     if hasattr(m, "sym_argmin"):
         return m.sym_argmin(run)
+    hook = run.ghost.get("argmin_hook")
+    if isinstance(m, SCell) and hook is not None and len(a) == 1 and not k:
+        return hook(run, m)
     raise Undecided("argmin")
 
 
